@@ -36,6 +36,51 @@ def setup_paths():
                 del sys.modules[k]
 
 
+# ---------------------------------------------------------------------------- result cache
+# Verifying one function is a pure function of: the engine, the contract/spec files, the sources of the
+# tree under verification, the tier and the solver budget.  The obligations and their verdicts are cached
+# under that content hash (never committed), so that several properties that depend on the same function
+# (DocTest.run serves eight of them) do not each pay for it.  A changed tree, contract or engine misses.
+
+_HASH = {}
+
+
+def _tree_hash():
+    if 'h' not in _HASH:
+        h = hashlib.sha256()
+        repo = os.environ.get('VERIF_REPO', '/repo')
+        roots = [os.path.join(ROOT, 'pyvc'), os.path.join(ROOT, 'contracts'), os.path.join(ROOT, 'specs'),
+                 os.path.join(repo, 'src', 'xdoctest')]
+        for root in roots:
+            for d, dn, fn in sorted(os.walk(root)):
+                dn.sort()
+                for f in sorted(fn):
+                    if f.endswith('.py'):
+                        path = os.path.join(d, f)
+                        h.update(path.encode())
+                        h.update(open(path, 'rb').read())
+        h.update(open(os.path.join(ROOT, 'gens.py'), 'rb').read())
+        _HASH['h'] = h.hexdigest()
+    return _HASH['h']
+
+
+def cache_path(q, tier, budget):
+    if os.environ.get('PYVC_NOCACHE'):
+        return None
+    key = hashlib.sha256(('%s|%s|%s|%s' % (_tree_hash(), q, tier, budget)).encode()).hexdigest()[:24]
+    d = os.path.join(ROOT, '.cache')
+    os.makedirs(d, exist_ok=True)
+    return os.path.join(d, key + '.json')
+
+
+class CachedOb(object):
+    def __init__(self, d):
+        self.__dict__.update(d)
+
+    def texts(self, ctx):
+        return ['; obligation text not regenerated (result reused from the content-hash cache)']
+
+
 def load_property(pid):
     mod = importlib.import_module('properties.' + pid)
     return mod.PROPERTY
@@ -75,6 +120,9 @@ def run(pid, tier, seed, replay_only=None):
     budget = float(os.environ.get('PYVC_BUDGET', '10' if tier == 'quick' else '60'))
     eng = Exec()
     undecided = []
+    cached_res = {}
+    cache_hits = []
+    fresh_fns = {}
     per_fn = {}
     obs = []
     sentinels = {}
@@ -94,10 +142,31 @@ def run(pid, tier, seed, replay_only=None):
         c = C.CONTRACTS[q]
         if c.trusted:
             continue
+        cpath = cache_path(q, tier, budget)
+        if cpath and os.path.exists(cpath):
+            try:
+                hit = json.load(open(cpath))
+            except Exception:
+                hit = None
+            if hit:
+                fo = [CachedOb(d) for d in hit['obligations']]
+                obs.extend(fo)
+                per_fn[q] = len(fo)
+                cached_res.update(hit['results'])
+                eng.trusted_used |= set(hit['trusted'])
+                if hit.get('sentinel') is not None:
+                    sentinels[q] = [CachedOb(d) for d in hit['sentinel']]
+                for k in eng.stats:
+                    eng.stats[k] += hit['stats'].get(k, 0)
+                cache_hits.append(q)
+                continue
         try:
+            t_before = set(eng.trusted_used)
+            stats_before = dict(eng.stats)
             fo = eng.verify_function(c)
             obs.extend(fo)
             per_fn[q] = len(fo)
+            fresh_fns[q] = {'obs': fo, 'trusted_before': t_before, 'stats_before': stats_before, 'path': cpath}
             if c.sentinel:
                 # must-fail sentinel: the same function against a deliberately false clause
                 sname, stext = c.sentinel
@@ -136,16 +205,17 @@ def run(pid, tier, seed, replay_only=None):
     # ---- discharge ---------------------------------------------------------
     jobs = []
     for ob in obs:
-        if '[folded]' in ob.note:
+        if '[folded]' in ob.note or isinstance(ob, CachedOb):
             continue
         jobs.append({'id': ob.id, 'texts': ob.texts(eng.ctx), 'budget_s': budget, 'expect': ob.expect})
     sjobs = []
     for q, so in sentinels.items():
         for ob in so:
-            if '[folded]' in ob.note:
+            if '[folded]' in ob.note or isinstance(ob, CachedOb):
                 continue
             sjobs.append({'id': ob.id, 'texts': ob.texts(eng.ctx), 'budget_s': min(budget, 3.0), 'expect': 'unsat'})
     res = solve.solve_all(jobs + sjobs)
+    res.update(cached_res)
     # retry inconclusive ones with a larger budget, few at a time (load robustness)
     retry = [j for j in jobs if not res[j['id']]['ok'] and res[j['id']]['verdict'] in ('unknown', 'error')]
     if retry and len(retry) <= 12:
@@ -157,6 +227,27 @@ def run(pid, tier, seed, replay_only=None):
             if v['ok']:
                 v['retried'] = True
                 res[k] = v
+
+    # ---- store fresh per-function results in the content-hash cache ------------------
+    def _obd(ob):
+        return {'id': ob.id, 'kind': ob.kind, 'fn': ob.fn, 'line': ob.line, 'note': ob.note, 'expect': ob.expect}
+    for q, info in fresh_fns.items():
+        if not info['path'] or any(u[0] == q for u in undecided):
+            continue
+        try:
+            so = sentinels.get(q)
+            ids = [ob.id for ob in info['obs']] + ([ob.id for ob in so] if so else [])
+            payload = {'obligations': [_obd(ob) for ob in info['obs']],
+                       'sentinel': None if so is None else [_obd(ob) for ob in so],
+                       'results': {i: res[i] for i in ids if i in res},
+                       'trusted': sorted(set(eng.trusted_used) - info['trusted_before']) + sorted(info['trusted_before'] & set(eng.trusted_used)),
+                       'stats': {k: eng.stats[k] - info['stats_before'].get(k, 0) for k in eng.stats}}
+            tmp = info['path'] + '.tmp%d' % os.getpid()
+            with open(tmp, 'w') as f:
+                json.dump(jsonable(payload), f)
+            os.replace(tmp, info['path'])
+        except Exception:
+            pass
 
     # ---- classify ----------------------------------------------------------
     failed = []
@@ -317,6 +408,8 @@ def run(pid, tier, seed, replay_only=None):
                            % (pid, tier, os.path.join(os.environ.get('VERIF_REPO', '/repo'), 'src')),
             'trusted_base': sorted(eng.trusted_used) + list(prop.get('trusted', [])),
             'functions_under_contract': [q for q in prop.get('functions', []) if not C.CONTRACTS[q].trusted],
+            'results_reused_from_content_hash_cache': cache_hits,
+            'contracts_used_but_verified_under_another_property': prop.get('uses', {}),
             'assumed_contracts': [q for q in prop.get('functions', []) if C.CONTRACTS[q].trusted],
             'lemmas': list(prop.get('lemmas', [])),
             'obligations_per_function': per_fn,
